@@ -448,7 +448,7 @@ pub fn run(args: &Args) -> i32 {
     // operators and instructions on pool pairs
     let bin_ops = ["+", "-", "*", "/", "%", "^", "==", "!=", "<", "<=", ">", ">=", "and", "or"];
     for a in &pool {
-        for form in ["-{}", "not {}", "size {}", "'{}'", "{}[0]", "{}[-1]", "{}[0..]", "{}.foo", "{}()", "({})...", "[{}...]"] {
+        for form in ["-{}", "not {}", "size {}", "'{}'", "{}[0]", "{}[-1]", "{}[0..]", "{}.foo", "{}()", "({})...", "[{}...]", "(|(ua, ub)| ua)({})", "(|(ufirst..., ub)| ub)({})", "(|(ua, urest...)| urest)({})"] {
             let call = form.replace("{}", a.2);
             let call = if form == "({})..." { format!("(|x...| x)({}...)", a.2) } else { call };
             scripts.push(call_script(&[a.1], &call));
